@@ -356,6 +356,15 @@ def _find_structure(fi: FunctionInfo):
             raise AnalysisError(f"the branch on the first round (`{dv} == 0`) was not found")
         # keep the statements that define the position used by the first block with the prelude
         first, rest, pre = pre[cut:], list(o.body), pre[:cut]
+        o._peeled = True  # type: ignore[attr-defined]
+        # the peeled round must not run for degree 0: an early exit `if degree < 1: return ..` before it
+        guarded = False
+        for s in pre:
+            if isinstance(s, ast.If) and s.body and isinstance(s.body[-1], ast.Return) and not s.orelse:
+                t = src_of(s.test).replace(" ", "").replace("self.poly_degree", "degree")
+                if t in ("degree<1", "degree==0", "degree<=0", "1>degree", "0==degree", "0>=degree", "notdegree"):
+                    guarded = True
+        o._peel_guarded = guarded  # type: ignore[attr-defined]
     
     inner = [s for s in rest if isinstance(s, ast.For) and isinstance(s.target, ast.Name) and isinstance(s.iter, ast.Call) and src_of(s.iter.func) == "range"]
     if len(inner) != 1:
@@ -434,6 +443,9 @@ def summarise(repo, fi: FunctionInfo, mode: str, interaction_only: Optional[bool
     rl, rh = _range_lin(inner.iter, rd)
     out["feature_loop"] = f"{rl!r}..{rh!r}"
     dl, dh = _range_lin(o.iter, rd)
+    if getattr(o, "_peeled", False) and getattr(o, "_peel_guarded", False):
+        # first round written before the loop (skipped when degree < 1): the loop runs the later rounds
+        dl = dl - Lin(1)
     out["degree_loop"] = f"{dl!r}..{repr(dh).replace('self.poly_degree', 'degree')}"
     rd.env[iv] = Lin.sym("i")
     n_pre = len(rd.events)
@@ -607,13 +619,21 @@ def check_b(ck, repo):
         nv = _names_var(_find_structure(names)[0])
     except AnalysisError:
         nv = None
+    from .sem import elementwise as _elementwise
+
     for r in rets:
         v = r.value
         if isinstance(v, ast.Name):
-            ds = [x for x in own_nodes(names.node) if isinstance(x, ast.Assign) and src_of(x.targets[0]) == v.id and isinstance(x.value, (ast.ListComp,))]
-            v = ds[-1].value if ds else v
-        if isinstance(v, ast.ListComp) and len(v.generators) == 1 and not v.generators[0].ifs and src_of(v.generators[0].iter) == nv and isinstance(v.elt, ast.Call) and len(v.elt.args) == 1 and src_of(v.elt.args[0]) == src_of(v.generators[0].target):
-            fmt = resolve_call(repo, names, v.elt)
+            # `names = [fmt(s) for s in names]; return names`: the last re-binding of the returned name
+            ds = [x for x in own_nodes(names.node) if isinstance(x, ast.Assign) and src_of(x.targets[0]) == v.id and isinstance(x.value, (ast.ListComp, ast.Call))]
+            ds.sort(key=lambda x: x.lineno)
+            v, at_ = (ds[-1].value, ds[-1]) if ds else (v, r)
+        else:
+            at_ = r
+        ew = _elementwise(repo, names, v, at_) if v is not None else None
+        el = ew[1] if ew is not None else None
+        if ew is not None and ew[0] == [nv] and isinstance(el, ast.Call) and len(el.args) == 1 and not el.keywords and src_of(el.args[0]) == "__e0":
+            fmt = resolve_call(repo, names, el)
         else:
             okr = False
     ck.verdict(okr and fmt is not None, "C11.b", names, f"returns {[src_of(r.value)[:50] for r in rets]}", "single kind of exit: the names built by the recurrence, each passed through the exponent formatter", f"_get_feature_names_poly returns {[src_of(r.value) for r in rets]}: some path returns something else than the names built by the recurrence")
@@ -664,6 +684,13 @@ def check_b(ck, repo):
             b = bind(p.ret, repo.func(POLY, "_transform_ionly").named_params)
             cbn = src_of(b["multiply"]).replace("__def", "") if "multiply" in b else None
             cb = next((f for f in mul if f.name == cbn), None)
+            if cb is None and cbn:
+                # a module-level function or a method used as callback
+                cb = resolve_call(repo, tp, ast.Call(func=ast.parse(cbn, mode="eval").body, args=[], keywords=[]))
+                if cb is None and cbn.isidentifier():
+                    cb = tp.module.functions.get(cbn)
+                if cb is not None and isinstance(cb, FunctionInfo) and cb.named_params[:1] == ["self"]:
+                    cb = None
     if cb is not None:
         A, B, C = cb.named_params[:3]
         r = [p.ret_text() for p in paths(cb)]
@@ -699,9 +726,47 @@ def check_b(ck, repo):
             okl = okl and rets == [arr]
     ck.verdict(okl, "C11.b", sl, loop[0].body[0] if loop else "XP[:, i] = X[:, comb].prod(1)", "column i is the product of the columns of combination i", "slow path column i is not the product over combination i")
     cp = repo.func(POLY, "_combinations_poly")
-    r = [p.ret_text() for p in paths(cp)]
-    w = ctext("chain.from_iterable(((combinations if interaction_only else combinations_w_r)(range(n_features), i) for i in range(int(not include_bias), degree + 1)))")
-    ck.verdict(r == [w], "C11.b", cp, "combinations of sizes start..degree", "scikit-learn's enumeration order (by degree, then lexicographic)", f"the combination enumeration differs from PolynomialFeatures' (_combinations): {r}")
+    from .sem import ptext as _t
+
+    def _cval(e):
+        """value of an expression made of constants, not/and/or, int()/bool(), conditional expressions"""
+        if isinstance(e, ast.Constant):
+            return e.value
+        if isinstance(e, ast.UnaryOp) and isinstance(e.op, ast.Not):
+            return not _cval(e.operand)
+        if isinstance(e, ast.UnaryOp) and isinstance(e.op, ast.USub):
+            return -_cval(e.operand)
+        if isinstance(e, ast.Call) and isinstance(e.func, ast.Name) and e.func.id in ("int", "bool") and len(e.args) == 1:
+            return {"int": int, "bool": bool}[e.func.id](_cval(e.args[0]))
+        if isinstance(e, ast.IfExp):
+            return _cval(e.body) if _cval(e.test) else _cval(e.orelse)
+        if isinstance(e, ast.BinOp) and isinstance(e.op, (ast.Add, ast.Sub)):
+            a_, b_ = _cval(e.left), _cval(e.right)
+            return a_ + b_ if isinstance(e.op, ast.Add) else a_ - b_
+        raise ValueError(ast.unparse(e))
+
+    bad = []
+    pn, pd, pio, pib = cp.named_params[:4]
+    for io in (True, False):
+        for ib in (True, False):
+            ps_ = [p for p in paths(cp, {pio: io, pib: ib}) if p.ret not in (None, RAISE)]
+            ok_ = False
+            if len(ps_) == 1 and isinstance(ps_[0].ret, ast.Call) and _t(ps_[0].ret.func) in ("chain.from_iterable", "itertools.chain.from_iterable") and len(ps_[0].ret.args) == 1 and isinstance(ps_[0].ret.args[0], (ast.GeneratorExp, ast.ListComp)):
+                g = ps_[0].ret.args[0]
+                if len(g.generators) == 1 and not g.generators[0].ifs and isinstance(g.generators[0].target, ast.Name) and isinstance(g.elt, ast.Call) and len(g.elt.args) == 2:
+                    v = g.generators[0].target.id
+                    it_ = g.generators[0].iter
+                    try:
+                        f_ = g.elt.func
+                        if isinstance(f_, ast.IfExp):
+                            f_ = f_.body if _cval(f_.test) else f_.orelse
+                        start_ok = isinstance(it_, ast.Call) and _t(it_.func) == "range" and len(it_.args) == 2 and _cval(it_.args[0]) == (0 if ib else 1) and _t(it_.args[1]) in (ctext(f"{pd} + 1"), ctext(f"1 + {pd}"))
+                        ok_ = start_ok and _t(f_) == ("combinations" if io else "combinations_w_r") and _t(g.elt.args[0]) == f"range({pn})" and _t(g.elt.args[1]) == v
+                    except (ValueError, TypeError):
+                        ok_ = False
+            if not ok_:
+                bad.append((io, ib, [p.ret_text()[:90] for p in ps_]))
+    ck.verdict(not bad, "C11.b", cp, "combinations of sizes start..degree", "scikit-learn's enumeration order (by degree, then lexicographic), with/without replacement by interaction_only, sizes from 0 or 1 by include_bias", f"the combination enumeration differs from PolynomialFeatures' (_combinations) for (interaction_only, include_bias) in {[(a_, b_) for a_, b_, _ in bad]}: {bad[0][2] if bad else ''}")
 
 
 def run(ck):
